@@ -56,7 +56,11 @@ func execOp(s *exec.State, ev abs.V) {
 	case "reset":
 		s.Reset()
 	case "build":
-		s.Build(h, ev["v"])
+		if r, ok := ev["rebuild"].(bool); ok && r {
+			s.Rebuild(h, ev["v"])
+		} else {
+			s.Build(h, ev["v"])
+		}
 	case "setbuf":
 		s.SetBuf(h, abs.GoBytes(ev["bytes"]))
 	case "marshal":
